@@ -1101,7 +1101,8 @@ func TestC17(t *testing.T) {
 	n := r.N(6000, 150000)
 	r.Cases(n, 0, func(idx int) { runCase(r, idx) })
 	forwarderLayer(r)
-	r.Assume("the forwarder between the Ethereum log subscription and the client (unexported forwardStateUpdates, reached through an export file the check's build adds to package l1 by build overlay) is monitored as a producer/consumer pair on its own; GethL1StateProvider's dialling, the abigen filterer and the Ethereum node are not part of the harness")
+	gethLayer(r)
+	r.Assume("the forwarder between the Ethereum log subscription and the client (unexported forwardStateUpdates, reached through an export file the check's build adds to package l1 by build overlay) is monitored as a producer/consumer pair on its own; the real GethL1StateProvider (ethclient + abigen filterer) is driven against a scripted L1 node over a loopback HTTP JSON-RPC endpoint for eth_getLogs / eth_getBlockByNumber / eth_blockNumber / eth_chainId (log subscriptions over websocket are not)")
 	r.Assume("the scripted L1 node is well-behaved as the property's quantifier states: finalised height monotone and <= latest; logs reorged only above the finalised height; " +
 		"a log delivered to the running client is reorged only while a subscription exists and its removal notice is then delivered; all removal notices of a reorg precede the new branch's logs")
 	r.Assume("causality: the node never answers a finalised height >= the block of a removal notice that the client has not yet read from its channel, EXCEPT for notices that were already in the channel when the client " +
